@@ -63,15 +63,26 @@ func (b *c08Broker) RoundTrip(req *http.Request) (*http.Response, error) {
 	return &http.Response{Status: "200 OK", StatusCode: 200, Header: http.Header{}, Body: ioutil.NopCloser(bytes.NewReader(body)), Request: req}, nil
 }
 
-func c08ClientSend(keep bool, brokerURL, cacheURL, front string, text string) string {
-	bc, err := newBrokerChannelFromConfig(ClientConfig{
+func c08ClientSend(viaClient bool, keep bool, brokerURL, cacheURL, front string, text string) string {
+	config := ClientConfig{
 		BrokerURL:          brokerURL,
 		AmpCacheURL:        cacheURL,
 		FrontDomain:        front,
 		KeepLocalAddresses: keep,
-	})
-	if err != nil {
-		return "nochannel"
+	}
+	var bc *BrokerChannel
+	if viaClient {
+		// the exported constructor; the channel is the one its dialer will negotiate through
+		t, err := NewSnowflakeClient(config)
+		if err != nil {
+			return "nochannel"
+		}
+		bc = t.dialer.BrokerChannel
+	} else {
+		var err error
+		if bc, err = newBrokerChannelFromConfig(config); err != nil {
+			return "nochannel"
+		}
 	}
 	b := &c08Broker{}
 	switch r := bc.Rendezvous.(type) {
@@ -116,7 +127,7 @@ func TestVerifC08Driver(t *testing.T) {
 	log.SetOutput(io.Discard)
 	wire.Loop(func(a []string) string {
 		switch a[0] {
-		case "csend": // csend <keep> x<broker url> x<amp cache url> x<front domain> <lstruct> x<text>
+		case "csend", "csendc": // csend <keep> x<broker url> x<amp cache url> x<front domain> <lstruct> x<text>; csendc: through NewSnowflakeClient
 			if len(a) != 7 {
 				return "!badcase"
 			}
@@ -131,7 +142,7 @@ func TestVerifC08Driver(t *testing.T) {
 			if v := sdplines.Structure(f[3]); v.Tok != a[5] {
 				return "!structure-mismatch " + v.Tok
 			}
-			return c08ClientSend(a[1] == "1", string(f[0]), string(f[1]), string(f[2]), string(f[3]))
+			return c08ClientSend(a[0] == "csendc", a[1] == "1", string(f[0]), string(f[1]), string(f[2]), string(f[3]))
 		}
 		return "!badcase"
 	})
